@@ -52,6 +52,10 @@ func c11(c *Ctx) {
 		r.Fail("C11.pool-objects", "", "pool-put-sites", c.fn("(*flateWriteWrapper).Close").Pos(), "fewer than 3 pool Put sites found")
 	}
 	c11prepared(c)
+	r.Rule("C11.detector-released", "the concurrent-write detector is released on every return of the function that set it, so a legal schedule (one writer at a time) is never reported as a concurrent write after an error (same rule as C10.detector-released)")
+	isWritingBracket(c, "C11.detector-released")
+	r.Rule("C11.prepared-private", "each variant of a PreparedMessage is rendered in memory of its own (a fresh write buffer and connection per once.Do), so two connections rendering different variants at the same time share nothing (same rules as C19.key-complete, C19.single-frame)")
+	c.borrow(c19, map[string]string{"C19.key-complete": "C11.prepared-private", "C19.single-frame": "C11.prepared-private"})
 }
 
 func c11partition(c *Ctx) {
